@@ -348,7 +348,29 @@ Consequences(r) == CASE r = "TypeDeclared" -> {"EnumValueDeclared"} [] r = "Enum
 SingleFaultIsSingle == (Len(edits) >= 1 /\ Cardinality(PlantedRules) = 1 /\ Cardinality({i \in 1..Len(edits) : ~IsGrow(edits[i])}) = 1) =>
                           \A r \in Violated(unit) : r = RuleOfEdit(CHOOSE l \in PlantedRules : TRUE) \/ r \in Consequences(RuleOfEdit(CHOOSE l \in PlantedRules : TRUE))
 
+(* C05: what the label of the diagnostic for a planted fault must cover - the spelling of the construct the
+   rule talks about.  "<call>" stands for the text of the whole invocation. *)
+LabelTargets(e) ==
+  CASE e[1] = "plant:StructElemUnique"      -> {"x", "PT"}
+    [] e[1] = "plant:SubrangeOrdered"       -> {ToString(e[3]), ToString(e[4]), "RNG"}
+    [] e[1] = "plant:EnumValuesUnique"      -> {e[3], "LEVEL"}
+    [] e[1] = "plant:VarDeclared"           -> {"zz"}
+    [] e[1] = "plant:EnumValueDeclared"     -> {"NOPE"}
+    [] e[1] = "plant:StmtEnumValueDeclared" -> {"NOPE"}
+    [] e[1] = "plant:TypeDeclared"          -> {"MISSING"}
+    [] e[1] = "plant:StdlibSupported"       -> {e[3]}
+    [] e[1] = "plant:FBInstanceDeclared"    -> {"ghost", "<call>"}
+    [] e[1] = "plant:InvocationNoMix"       -> {"<call>"}
+    [] e[1] = "plant:InputsDeclared"        -> {"<call>", "bogus"}
+    [] e[1] = "plant:PositionalArity"       -> {"<call>"}
+    [] e[1] = "plant:OutputsDeclared"       -> {"<call>", "nothere"}
+    [] e[1] = "plant:TaskDefined"           -> {"TX", e[2]}
+    [] e[1] = "plant:ConstInitialised"      -> {"nc", "k"}
+    [] e[1] = "plant:ConstNotFB"            -> {"nf", "CALLEE"}
+    [] e[1] = "plant:ExternOfConstIsConst"  -> {"gk"}
+    [] OTHER                                -> {}
 Replay == [R |-> "unit", unit |-> unit, edits |-> edits, violated |-> Violated(unit),
-           codes |-> [r \in Violated(unit) |-> Code(r)]]
+           codes |-> [r \in Violated(unit) |-> Code(r)],
+           targets |-> [i \in 1..Len(edits) |-> LabelTargets(edits[i])]]
 EmitReplay == Emit => PrintT(ToJson(Replay))
 =============================================================================
